@@ -362,7 +362,7 @@ RULE_ADDITIONS = {
     'C01': "Key objects and hashers carry generated histories: the public key is obtained through a generated constructor route (PublicKey(), decoded from a buffer that is then overwritten, one-element aggregate, projective result of RemoveBLSPublicKeys), aggregated keys have inputs with and without cached public keys, KMAC hashers were written to / reset / read before (the reference H(m) comes from a fresh twin), domain tags reach 480 bytes and a one-byte neighbour of the tag must give another signature; the expand-message hasher itself is compared with SP 800-185 KMAC128(tag || suite, 'H2C', m, 128). The hasher errors of Verify are asserted with nil / short / long / malformed signatures as well; the slice returned by Sign is kept uncopied while the key signs and verifies further. Key pairs also come out of other APIs: a key share of BLSThresholdKeyGen and the keys a plain Feldman VSS participant leaves End() with (public part as returned by that API, or recomputed).",
     'C02': 'Keys through generated constructor routes; when the aggregate is the identity (total cancellation is drawn explicitly) an infinity encoding with a stray byte at each of the 47 positions must be rejected. A large-list job puts 15..200 (message, hasher) entries under each of one to three keys, or 15..200 distinct key objects (projective ones among them) under each of one to three messages; the exact sum must be accepted and the sum over the entries beyond the first 64 (16) of each group rejected.',
     'C03': 'A template job combines 0-4 structural entries (wrong-length / nil signature, identity key, malformed, outside G1, identity signature) with one cancelling pair / triple / swapped pair at generated positions (one case in three: the group at the highest indices). Every call on two or more well-formed entries must draw at least 128 bits from crypto/rand.Reader (the coefficients are fresh per call, not a function of the input). Batches of 33..257 entries (sizes around 64, 128, 256) with none to four invalid positions (first, last, generated; cancelling groups included).',
-    'C04': 'Input keys through generated constructor routes (projective keys included), private keys with and without cached public keys; lists of 63..300 items around the sizes 64 / 128 / 256 with an identity signature inside. Lists of 15..65 arbitrary E1 points (order-3 points, identity, repeated and negated neighbours next to each other) must sum to the E1 sum of the oracle. A few keys of the long lists are held in projective form or were decoded / re-aggregated.',
+    'C04': 'Input keys through generated constructor routes (projective keys included), private keys with and without cached public keys; lists of 63..300 items around the sizes 64 / 128 / 256 with an identity signature inside. Lists of 15..65 arbitrary E1 points (order-3 points, identity, repeated and negated neighbours next to each other) must sum to the E1 sum of the oracle. A few keys of the long lists are held in projective form or were decoded / re-aggregated. Removal also runs in two steps (the second call receives the un-normalised result of the first), from another object for the same aggregate, and from the identity left after removing every key.',
     'C05': 'Produced objects include the keys a plain Feldman VSS participant returns when dealt an honest vector or one whose entries were moved outside G2 by cancelling amounts.',
     'C06': "For t <= 12 the sharing polynomial's coefficients are recovered and must be non-zero and pairwise distinct; the participant constructor must report what its inspector part refuses. Objects configured with a threshold below the degree of the sharing polynomial, with a foreign group key, or whose caller overwrites a share buffer after a successful add: whatever ThresholdSignature() returns without an error must verify under the group key of the object. A second share for a signer already in the pool, valid or not, must give the duplicated-signer error through VerifyAndAdd and TrustedAdd.",
     'C09': 'The DKG constructors are held to their documented argument contract on tuples with a generated subset of hostile arguments; every DKG handler / ForceDisqualify call of the message feeder must return the documented error class (state-transition when not running, invalid-inputs for an origin outside [0, n), nil otherwise), origins are biased to the range edges and to the dealer, payloads include bare tags; stateless reconstruction with valid or hostile spare shares must give a verifying signature; well-formed list calls and whole DKG networks also run under the address sanitizer in the quick tier. Half of the DKG feeder cases start the instance and draw most steps from the alphabet of well-formed messages around one dealer and one complainer (complaint, answer with valid / zero / r / r-1 / all-ones value, the real vector, the real share, timeouts) in generated order; hostile integers fall next to the documented bound one time in three. Any signature string against well-formed key / message / hasher lists must give a verdict without an error from the one-message and the many-messages verifier.',
@@ -374,7 +374,7 @@ RULE_ADDITIONS = {
     'C16': 'Identity keys come from eight constructions (constant, decoded, pk + (-pk), removal of a key from itself, of all keys at once and in two steps, public key of the zero aggregate with cold and warm inputs); keys through generated constructor routes; hashers with histories. Key pairs also come out of other APIs: a key share of BLSThresholdKeyGen and the keys a plain Feldman VSS participant leaves End() with (public part as returned by that API, or recomputed).',
     'C17': 'Both proofs are also modified together: (p1 + T, p2 - T), (p1 + T, p2 + T), (p1 + T, -(p1 + T)) must be rejected, (-p1, -p2), (c p1, c p2) and (-p1, -pk2) keep the verdict; keys through generated constructor routes; eight identity-key constructions. The non-BLS key is combined with a nil, SHA2, SHA3 or wrong-size KMAC hasher and with truncated proofs: the not-a-BLS-key error is still the documented one. Key pairs also come out of other APIs: a key share of BLSThresholdKeyGen and the keys a plain Feldman VSS participant leaves End() with (public part as returned by that API, or recomputed).',
     'C18': 'Goroutines are released through a spin barrier; one case in three is a stampede (every goroutine starts with the same call on the same signer and share buffer); key objects are rebuilt for each of the runs of a program.',
-    'C19': "Goroutines are released through a spin barrier; one case in three is a stampede on one call; the signature list handed to batch verification must stay the caller's.",
+    'C19': "Goroutines are released through a spin barrier; one case in three is a stampede on one call; the signature list handed to batch verification must stay the caller's. The memory of every BLS public key object is compared before and after the calls (run alone and concurrently), not only what the keys encode to.",
 }
 for _pid, _txt in RULE_ADDITIONS.items():
     PROPS[_pid]["rule"] += " Added later: " + _txt
